@@ -254,7 +254,7 @@ CHECKS = {
         note=(TB_COMMON + "The prediction-preservation half is translation validation (programs = models run, disagreements_checked = route runs). "
               "HDF5, Keras deserialisation and eager execution are trusted runtime. Layers that do not build under the pinned Keras 3 "
               "(QBatchNormalization, folded, recurrent wrappers) are not generated."),
-        technique="Coq obligations over translator-generated tables + differential round-trip runs (translation validation)"),
+        technique="Coq obligations over translator-generated tables (quantizer classes, custom-object table, get_config of every layer class) + differential round-trip runs (translation validation)"),
     "C14": dict(
         category="proof",
         text=("Coq theorems (Properties/C14.v), generic in the tensor type, the layer functions, the number of layers and weights: after the "
@@ -273,7 +273,7 @@ CHECKS = {
               "QBatchNormalization does not build under the pinned Keras 3, so the fusing terms are checked on stand-in layers; rsqrt is an "
               "oracle; HDF5 writing (filename=) is not exercised; idempotence of po2 / binary / ternary instances is checked on the "
               "implementation (their exponent-level idempotence theorem is C03's)."),
-        technique="Coq proof (generic export-loop theorems, tuple algebra over Q and exact rationals) + differential correspondence with Coq-side tuple checkers"),
+        technique="Coq proof (generic export-loop theorems, tuple algebra over Q and exact rationals, alignment of the export bookkeeping REGENERATED from utils.py by tools/translate/exportgen.py with a re-proved link lemma) + differential correspondence with Coq-side tuple checkers"),
     "C15": dict(
         category="proof",
         text=("Coq theorems (Properties/C15.v, over Q, for every kernel, bias, statistic -- gamma = 0 and tiny variances included -- and every "
@@ -290,7 +290,7 @@ CHECKS = {
         design_ref="DESIGN.md section 5 C15, section 10, section 10.10",
         note=(TB_COMMON + "Convolution homogeneity and rsqrt are Section hypotheses/variables. The folded classes and convert/unfold utilities do "
               "not run under the pinned Keras 3 (two known findings): the anchored method bodies are executed on a duck-typed self."),
-        technique="Coq proof (field identity with the convolution as a Section variable) + differential correspondence through unbound methods"),
+        technique="Coq proof (field identity with the convolution as a Section variable; get_folded_weights REGENERATED from both folded classes by tools/translate/foldgen.py with re-proved link lemmas) + differential correspondence through unbound methods and the real layer classes"),
     "C20": dict(
         category="proof",
         text=("Coq theorems (Properties/C20.v): for EVERY reference layer list, limit dictionary (numeric limits and lists, regex patterns in any order), "
